@@ -26,6 +26,18 @@ for pid in props:
         na.append({"property_id": pid, "reason": "static check for this property not built yet (see DESIGN.md section 3 for the planned rules)"})
         continue
     meta = importlib.import_module(f"checks.{pid}").META
+    # the level text was written with the first rules of each check; say how many rules the check carries today
+    try:
+        import json as _json
+
+        _ev = _json.loads((VERIF / "evidence" / f"{pid}.json").read_text())
+        _n_rules = _ev.get("coverage", {}).get("rules")
+        _n_rules = len(_n_rules) if isinstance(_n_rules, (list, dict)) else _n_rules
+    except Exception:  # noqa: BLE001
+        _n_rules = None
+    if _n_rules:
+        meta = dict(meta)
+        meta["level_text"] = meta["level_text"].rstrip() + f" As built the check carries {_n_rules} rules - each a further necessary condition of the same kind, listed with its instance count in the evidence file and in DESIGN.md Appendix D, and introduced round by round in DESIGN.md sections 0-0m."
     checks.append(
         {
             "property_id": pid,
